@@ -166,11 +166,10 @@ func Generate(rng *rand.Rand, prop, tier string, gomaxprocs int) *Desc {
 		nexec = 2
 	}
 	total, maxLen := 0, 0
-	for e := 0; e < nexec; e++ {
-		pi := progs[rng.Intn(len(progs))]
-		if e > 0 && rng.Intn(2) == 0 {
-			pi = d.Execs[0].Prog // the same directive from several goroutines
-		}
+	nestable := prop != "C20" && prop != "C20mod"
+	nested := 0
+	var gen func(pi, depth int) ExecD
+	gen = func(pi, depth int) ExecD {
 		p := programs[pi].P
 		mix := mixFor(rng, prop)
 		x := ExecD{Prog: pi, TaskOut: map[int]int{}, PredOut: map[int]int{}, Len: map[int]int{}, PanicKind: rng.Intn(4), Colls: map[int]*CollD{}}
@@ -285,7 +284,18 @@ func Generate(rng *rand.Rand, prop, tier string, gomaxprocs int) *Desc {
 			x.TaskOut = map[int]int{keep: x.TaskOut[keep]}
 		}
 		if rng.Intn(mix.cancelP) == 0 {
-			x.CancelMode = 1 + rng.Intn(4)
+			x.CancelMode = 1 + rng.Intn(5)
+			if x.CancelMode == CancelInElem {
+				x.CancelMode = CancelExternal
+				if p.Par != nil {
+					for _, c := range p.Par.Colls {
+						if cd := x.Colls[c.ID]; cd != nil && !cd.Nil && len(cd.Vals) > 0 {
+							x.CancelMode, x.CancelTask, x.CancelOrd = CancelInElem, c.ID, rng.Intn(len(cd.Vals))
+							break
+						}
+					}
+				}
+			}
 			if x.CancelMode == CancelInTask {
 				if len(taskIDs) == 0 {
 					x.CancelMode = CancelExternal
@@ -310,7 +320,25 @@ func Generate(rng *rand.Rand, prop, tier string, gomaxprocs int) *Desc {
 			setBarrier(rng, p, &x, gomaxprocs)
 		}
 		total += 24
-		d.Execs = append(d.Execs, x)
+		// nested directive: the body of one task runs another program
+		if nestable && !x.Barrier && x.HoldTask == 0 && len(taskIDs) > 0 && depth < 2 && nested < 3 && rng.Intn(5) == 0 {
+			nested++
+			id := taskIDs[rng.Intn(len(taskIDs))]
+			ci := progs[rng.Intn(len(progs))]
+			if rng.Intn(4) == 0 {
+				ci = pi // the same directive, re-entered from one of its own tasks
+			}
+			ch := gen(ci, depth+1)
+			x.Nest = map[int]*ExecD{id: &ch}
+		}
+		return x
+	}
+	for e := 0; e < nexec; e++ {
+		pi := progs[rng.Intn(len(progs))]
+		if e > 0 && rng.Intn(2) == 0 {
+			pi = d.Execs[0].Prog // the same directive from several goroutines
+		}
+		d.Execs = append(d.Execs, gen(pi, 0))
 	}
 	d.Policy = pickPolicy(rng, prop)
 	d.Budget = 40 * (total + 10) * (maxLen + 10)
